@@ -85,6 +85,9 @@ func VerifFileConcurrent() {
 	s.setup(2)
 	id0 := s.m.pages[0].id
 	v0 := s.m.pages[0].b1 // version marker of the committed content
+	if verifParam("observer", 0) == 1 {
+		s.f.observer = verifNopObserver{} // an application that watches the file's statistics
+	}
 	verifSched(verifParam("preempt", 2))
 	f := s.f
 
@@ -365,3 +368,9 @@ func VerifCloseConcurrent() {
 	verifAssert(closed, "File.Close returned after the transaction ended")
 	verifReach("end")
 }
+
+type verifNopObserver struct{}
+
+func (verifNopObserver) OnOpen(stats FileStats)                {}
+func (verifNopObserver) OnTxBegin(readonly bool)               {}
+func (verifNopObserver) OnTxClose(file FileStats, tx TxStats) {}
